@@ -150,8 +150,18 @@ def proportions(ctx, m):
         # monotone in z on z > 0: same formulation as C17 (both ends at once, on the two-sided path whose bound terms are the
         # one-sided ones - identical DAGs, checked above); at z = 0 both ends are k/n, which every interval with z >= 0 contains
         zr = [T.mk('flt', zero, Z), T.mk('flt', Z, Z2)] + ([T.mk('fle', Z2, T.fconst(4))] if tag == 'wald' else [])
-        m.submit('C10:%s:nested-in-level' % tag, pc0 + [r2(c) for c in pc0] + dom + zr, T.and_(T.mk('fle', r2(lo), lo), T.mk('fle', hi, r2(hi))), key='C10:%s:nested' % tag, timeout=240,
-                 note='0 < z < z\' => CI(z) inside CI(z\'), both ends')
+        exa = c17.extract_all(m, fname)
+        multi = any(len(v) > 1 for v in exa.values())
+        for i, (pci, loi, hii) in enumerate(exa[0]):
+            for j, (pcj, loj, hij) in enumerate(exa[0]):
+                # the interval at the lower level may come from one path and the one at the higher level from another (piecewise producers)
+                m.submit('C10:%s:nested-in-level%s' % (tag, '' if not multi else ':paths%d-%d' % (i, j)), pci + [r2(c) for c in pcj] + dom + zr, T.and_(T.mk('fle', r2(loj), loi), T.mk('fle', hii, r2(hij))),
+                         key='C10:%s:nested' % tag, timeout=240, note="0 < z < z' => CI(z) inside CI(z'), both ends", vacuity=(i == j))
+        for kind in (1, 2):
+            for i, (pck, lok, hik) in enumerate(exa[kind][1:], 1):
+                # additional one-sided paths must return the same functions of z as the first one (which was compared with the two-sided path)
+                m.submit('C10:%s:one-sided-path%d-same-bounds:%s' % (tag, i, KNAME[kind]), nokind(pck) + nokind(ex[kind][0]) + dom, T.and_(T.mk('feq', lok, ex[kind][1]), T.mk('feq', hik, ex[kind][2])),
+                         key='C10:%s:one-sided-vs-two-sided' % tag, timeout=120, vacuity=False)
         phat = T.mk('fdiv', k_f, n_f)
         m.submit('C10:%s:contains-point-estimate' % tag, pc0 + dom + [T.mk('fge', Z, zero)], T.and_(T.mk('fle', lo, phat), T.mk('fle', phat, hi)), key='C10:%s:point-estimate' % tag, timeout=120)
     m.collect()
